@@ -121,6 +121,25 @@ for (const st of spec.structs) {
                 r.takeArgs = call ? ser(call[1]) : null;
                 r.takeAllocs = stub.dvAllocs.slice();
             } catch (e) { r.takeError = String(e && e.stack || e).split("\n").slice(0, 3).join(" | "); }
+            // (f) the struct as an optional parameter
+            if (typeof C.dvTakeOpt === "function") {
+                for (const [key, arg] of [["takeOptSome", inst], ["takeOptNone", null]]) {
+                    try {
+                        stub.dvReset();
+                        let seen = null;
+                        stub.dvState.onCall = (k, args) => {
+                            if (k === st.name + "_dv_take_opt") {
+                                const p = args[0];
+                                seen = { args: ser(args), bytes: (typeof p === "number" && p > 0) ? hex(wasm.memory.buffer, p, st.size + 16) : "" };
+                            }
+                            return undefined;
+                        };
+                        C.dvTakeOpt(arg);
+                        stub.dvState.onCall = null;
+                        r[key] = seen ? Object.assign(seen, { allocs: stub.dvAllocs.slice() }) : { error: "the export was not called" };
+                    } catch (e) { stub.dvState.onCall = null; r[key] = { error: String(e && e.stack || e).split("\n").slice(0, 3).join(" | ") }; }
+                }
+            }
         }
     }
     // (d) receive buffer of a method returning the struct
